@@ -11,6 +11,8 @@ CONSTANTS
   NodeCounts = {1}
   LockKeys = {"owner"}
   Variants = {}
+  MaxReRel = 2
+  Slacks = {1}
   FixedKinds = {}
   WithRelease = TRUE
   Emit = FALSE
